@@ -1,9 +1,9 @@
 (* Hnsw/Exact.v — C07: exactness of search on small collections.
    Proved here: whenever the level-0 beam reaches every live vertex, Search returns exactly the k nearest items in
-   exact order (C07_exact_partial).  The remaining link — for insert-only collections of at most 2M+1 items with
+   exact order (exact_given_coverage).  The remaining link — for insert-only collections of at most 2M+1 items with
    n <= max(ef, k) the beam does reach every live vertex (level 0 stays connected because no link is ever pruned, and
-   the beam never stops early while it is not full) — is stated as [C07_exact_statement] and, in this development,
-   checked exhaustively on the model and on the implementation rather than proved. *)
+   the beam never stops early while it is not full) — is stated here as [C07_exact_statement] and proved in
+   Hnsw/Cover.v (complete traversal) and Hnsw/Small.v (connectivity of insert-only collections). *)
 From Verif Require Import Base.Prelude Store.Spec Store.Partition Store.Proofs Hnsw.Model Hnsw.Frame Hnsw.Inv Hnsw.Search.
 From Coq Require Import Sorted.
 Open Scope N_scope.
@@ -84,9 +84,11 @@ Section Exact.
   Definition insert_only (ops : list (N * vec * meta * nat)) : hnsw :=
     fold_left (fun s '(id, v, m, l) => fst (insert dist ord c s id v m l)) ops hnsw_empty.
   Definition C07_exact_statement : Prop :=
+    (forall es, Permutation (ord es) es) ->           (* a `range` over an edge map visits every entry once, in any order *)
     forall ops q k, NoDup (map (fun '(id, _, _, _) => id) ops) ->
-      (length ops <= 2 * c_m c + 1)%nat -> c_mmax0 c = (2 * c_m c)%nat -> (1 <= c_m c)%nat -> (c_m c <= c_mmax c)%nat ->
+      (length ops <= 2 * c_m c + 1)%nat -> c_mmax0 c = (2 * c_m c)%nat -> (1 <= c_m c)%nat ->
       (length ops <= Nat.max (c_ef c) k)%nat -> c_extend c = false ->
+      (N.of_nat (length ops) < two64)%N ->             (* the 64-bit item counter has not wrapped *)
       covers (insert_only ops) (beam dist ord c (insert_only ops) q k).
 End Exact.
 
